@@ -170,6 +170,6 @@ ApplyIO(n, s) ==
                              ELSE LET s1 == PopN(s, "bvec", 1) IN
                                   IF ~Has(s, "ivec", 1) THEN Unfired(s1)
                                   ELSE LET s2 == PopN(s1, "ivec", 1) IN
-                                       IF Len(s.output) >= OutputCap THEN Fired(s2)
+                                       IF Len(s.output) >= s.cfg.out_cap THEN Fired(s2)
                                        ELSE Fired(SetF(s2, "output", s.output \o <<[h |-> s.ivec[1], b |-> s.bvec[1]]>>))
 =============================================================================
